@@ -72,7 +72,7 @@ class StaticCondensation(Module):
         return np.asarray(A[self.m, ...][..., self.m] - A[self.m, ...][..., self.f] @ self.X)
 
     def _sensitivity(self, dfdB):
-        C = np.zeros((self.n, len(self.m)), dtype=float)
+        C = np.zeros((self.n, len(self.m)), dtype=np.result_type(float, self.X))
         C[self.m, ...] = np.eye(len(self.m))
         C[self.f, ...] = -self.X
         return C @ dfdB @ C.T if isinstance(dfdB, DyadCarrier) else DyadCarrier(list(C.T), list(np.asarray(dfdB @ C.T)))
